@@ -87,6 +87,9 @@ impl core::fmt::Display for ParseFenError {
                 crate::BoardValidationError::TooManyPieces => {
                     write!(f, "Too many pieces, there may be at most 16 pieces on each side")
                 },
+                crate::BoardValidationError::OpponentInCheck => {
+                    write!(f, "The side that is not to move is in check")
+                },
             },
         }
     }
